@@ -56,6 +56,11 @@ func goErrorFor(name string) error {
 	panic("bad error name " + name)
 }
 
+// noReadFailingDo fails like a refused connection: the request body is never read.
+type noReadFailingDo struct{ err error }
+
+func (f noReadFailingDo) Do(req *http.Request) (*http.Response, error) { return nil, f.err }
+
 type failingDo struct{ err error }
 
 func (f failingDo) Do(req *http.Request) (*http.Response, error) {
@@ -747,6 +752,105 @@ func streamCancel(c *Ctx) {
 			got := fmt.Sprintf("user code ran %d times, response code %d", atomic.LoadInt32(&runs), code)
 			return got, atomic.LoadInt32(&runs) == 0 && code == 4
 		}})
+		// K10: a peer (any implementation) sends a call whose time is already up - a zero timeout.
+		// The handler's context is finished on arrival: unary user code is not run, a streaming
+		// handler waiting on its context is released at once, the peer is told deadline_exceeded.
+		for _, kind := range []string{"unary", "server"} {
+			kind := kind
+			scs = append(scs, scenario{"cancel-expired-on-arrival", fmt.Sprintf("zero timeout header on a %s call, %s", kind, proto), func() (string, bool) {
+				runs := int32(0)
+				released := make(chan string, 1)
+				var h http.Handler
+				if kind == "unary" {
+					h = connect.NewUnaryHandler("/s/m", func(ctx context.Context, r *connect.Request[[]byte]) (*connect.Response[[]byte], error) {
+						atomic.AddInt32(&runs, 1)
+						return connect.NewResponse(&[]byte{1}), nil
+					}, connect.WithCodec(rawCodec{"raw"}))
+				} else {
+					h = connect.NewServerStreamHandler("/s/m", func(ctx context.Context, r *connect.Request[[]byte], s *connect.ServerStream[[]byte]) error {
+						select {
+						case <-ctx.Done():
+							released <- fmt.Sprint(ctx.Err())
+							return ctx.Err()
+						case <-time.After(2 * time.Second):
+							released <- "not released within 2s"
+							return nil
+						}
+					}, connect.WithCodec(rawCodec{"raw"}))
+				}
+				body := []byte{5}
+				if proto != "connect" || kind != "unary" {
+					body = frame(0, []byte{5})
+				}
+				req := httptest.NewRequest(http.MethodPost, "/s/m", bytes.NewReader(body))
+				req.ProtoMajor, req.ProtoMinor, req.Proto = 2, 0, "HTTP/2.0"
+				req.Header.Set("Content-Type", ctFor(proto, kind, "raw"))
+				if proto == "connect" {
+					req.Header.Set("Connect-Timeout-Ms", "0")
+				} else {
+					req.Header.Set("Grpc-Timeout", "0m")
+				}
+				rec := httptest.NewRecorder()
+				h.ServeHTTP(rec, req)
+				code, _ := responseErrorCode(proto, kind, rec)
+				if kind == "unary" {
+					got := fmt.Sprintf("user code ran %d times, response code %d", atomic.LoadInt32(&runs), code)
+					return got, atomic.LoadInt32(&runs) == 0 && code == 4
+				}
+				rel := "handler not run"
+				select {
+				case rel = <-released:
+				default:
+				}
+				got := fmt.Sprintf("handler context: %s, response code %d", rel, code)
+				return got, (rel == "context deadline exceeded" || rel == "handler not run") && code == 4
+			}})
+		}
+		// K11: the response side of a bidi call has already ended (with the server's error, or
+		// cleanly), the request side is still open; the caller's context ends; the next Send
+		// reports the context's code, not whatever ended the response side earlier
+		for _, how := range []string{"error", "clean"} {
+			for _, ending := range []string{"cancel", "deadline"} {
+				how, ending := how, ending
+				scs = append(scs, scenario{"cancel-send-after-response-ended", fmt.Sprintf("bidi call: response side ended (%s), then %s, then Send, %s", how, ending, proto), func() (string, bool) {
+					srv := startServer(connect.NewBidiStreamHandler("/s/m", func(ctx context.Context, s *connect.BidiStream[[]byte, []byte]) error {
+						if how == "error" {
+							return connect.NewError(connect.CodeResourceExhausted, errors.New("quota"))
+						}
+						return nil
+					}, connect.WithCodec(rawCodec{"raw"})), true)
+					defer srv.Close()
+					cl := connect.NewClient[[]byte, []byte](srv.Client(), srv.URL+"/s/m", append(protoOpts(proto), connect.WithCodec(rawCodec{"raw"}))...)
+					var ctx context.Context
+					var cancel context.CancelFunc
+					if ending == "cancel" {
+						ctx, cancel = context.WithCancel(context.Background())
+					} else {
+						ctx, cancel = context.WithTimeout(context.Background(), 400*time.Millisecond)
+					}
+					defer cancel()
+					s := cl.CallBidiStream(ctx)
+					_ = s.Send(&[]byte{1})
+					_, rerr := s.Receive()
+					first := codeName(rerr)
+					if ending == "cancel" {
+						cancel()
+					} else {
+						<-ctx.Done()
+					}
+					serr := s.Send(&[]byte{2})
+					_ = s.CloseRequest()
+					_ = s.CloseResponse()
+					want := map[string]string{"cancel": "canceled", "deadline": "deadline_exceeded"}[ending]
+					got := fmt.Sprintf("Receive: %s, Send after the context ended: %s", first, codeName(serr))
+					okFirst := (how == "error" && first == "resource_exhausted") || (how == "clean" && strings.HasSuffix(first, "+eof"))
+					if !okFirst {
+						return got, true // the response side did not end as arranged (timing): nothing to judge
+					}
+					return got, codeName(serr) == want
+				}})
+			}
+		}
 		// K6: the context ends between the prefix write and the payload write of one Send
 		scs = append(scs, scenario{"cancel-mid-send", "context cancelled between the two writes of one Send, " + proto, func() (string, bool) {
 			return cancelMidSend(proto)
@@ -904,6 +1008,78 @@ func streamLife(c *Ctx) {
 			got := fmt.Sprintf("receive=%s send=%s", codeName(rerr), codeName(sendErr))
 			return got, codeName(rerr) == "aborted" && sendErr != nil && errors.Is(sendErr, io.EOF)
 		}})
+		// L1c: a server-streaming call whose request cannot be delivered because the other side
+		// is already finished (the transport fails without reading it; the handler answers without
+		// reading 8 MiB): the caller still learns the call's real outcome - from the call itself
+		// or from the stream's Receive/Err - not a local "write: EOF"
+		for _, route := range []string{"transport-fails", "handler-answers-early"} {
+			route := route
+			scs = append(scs, scenario{"life-send-after-finish", fmt.Sprintf("server-streaming call, %s before the request is read, %s", route, proto), func() (string, bool) {
+				want := "unavailable"
+				var hc connect.HTTPClient = noReadFailingDo{errors.New("dial tcp: connection refused")}
+				url := "http://127.0.0.1:9/s/m"
+				msg := []byte{1}
+				if route == "handler-answers-early" {
+					want = "resource_exhausted"
+					srv := startServer(connect.NewServerStreamHandler("/s/m", func(ctx context.Context, r *connect.Request[[]byte], s *connect.ServerStream[[]byte]) error {
+						return connect.NewError(connect.CodeResourceExhausted, errors.New("no more"))
+					}, connect.WithCodec(rawCodec{"raw"}), connect.WithReadMaxBytes(1024)), true)
+					defer srv.Close()
+					hc, url = srv.Client(), srv.URL+"/s/m"
+					msg = bytes.Repeat([]byte{9}, 8<<20)
+					want = "invalid_argument" // the 8 MiB message exceeds the handler's read limit: its answer
+				}
+				cl := connect.NewClient[[]byte, []byte](hc, url, append(protoOpts(proto), connect.WithCodec(rawCodec{"raw"}))...)
+				st, err := cl.CallServerStream(context.Background(), connect.NewRequest(&msg))
+				got := ""
+				if err != nil {
+					got = codeName(err)
+				} else {
+					for st.Receive() {
+					}
+					got = codeName(st.Err())
+					_ = st.Close()
+				}
+				return "outcome=" + got, strings.TrimSuffix(got, "+eof") == want && !strings.HasSuffix(got, "+eof")
+			}})
+		}
+		// L1d: the caller's context is already over at the first Send of a bidi call; the response
+		// side (Receive, ResponseHeader) answers at once with the context's code - before the
+		// request side is closed
+		for _, ending := range []string{"cancelled", "expired"} {
+			ending := ending
+			scs = append(scs, scenario{"life-response-after-failed-first-send", fmt.Sprintf("bidi call on a context already %s: Send, then Receive before CloseRequest, %s", ending, proto), func() (string, bool) {
+				srv := startServer(connect.NewBidiStreamHandler("/s/m", func(ctx context.Context, s *connect.BidiStream[[]byte, []byte]) error {
+					return nil
+				}, connect.WithCodec(rawCodec{"raw"})), true)
+				defer srv.Close()
+				cl := connect.NewClient[[]byte, []byte](srv.Client(), srv.URL+"/s/m", append(protoOpts(proto), connect.WithCodec(rawCodec{"raw"}))...)
+				ctx, cancel := context.WithCancel(context.Background())
+				want := "canceled"
+				if ending == "expired" {
+					cancel()
+					ctx, cancel = context.WithDeadline(context.Background(), time.Now().Add(-time.Second))
+					want = "deadline_exceeded"
+				}
+				cancel()
+				s := cl.CallBidiStream(ctx)
+				serr := s.Send(&[]byte{1})
+				done := make(chan string, 1)
+				go func() {
+					_, rerr := s.Receive()
+					done <- codeName(rerr)
+				}()
+				got := ""
+				select {
+				case got = <-done:
+				case <-time.After(3 * time.Second):
+					got = "still blocked after 3s"
+				}
+				_ = s.CloseRequest()
+				_ = s.CloseResponse()
+				return fmt.Sprintf("send=%s receive=%s", codeName(serr), got), codeName(serr) == want && got == want
+			}})
+		}
 		// L2: whatever happens to the response, its body is closed once the call is closed
 		for _, variant := range []string{"ok", "status-404", "unknown-encoding", "handler-error", "bad-content"} {
 			variant := variant
